@@ -13,7 +13,11 @@ VARIABLES tid, verdict
 \* C03: in-range values are encoded exactly, omitted attributes are zero, parsing returns the supplied values
 JudgeC03(e) ==
     LET b == Build(e.m, e.cls, e.id, e.pbf = 1, e.kw) IN
-    IF b.err # "" \/ e.pre # "msg" \/ Len(e.kw) = 0 THEN "triv"
+    IF e.pre # "msg" \/ Len(e.kw) = 0 THEN "triv"
+    \* a value the projection cannot express for its field (a float for an integer field, say) is outside "in-range values the field
+    \* can represent" - unless the PARSER reported it: what parsing a frame reports must be accepted when fed back unchanged
+    ELSE IF b.err # "" THEN (IF e.full = 1 /\ e.out # "msg" /\ StartsWith(b.err, "unrepresentable-value-")
+                             THEN "C03:parser-reported-value-refused:" \o SubSeq(b.err, 23, Len(b.err)) ELSE "triv")
     ELSE IF e.out # "msg" THEN "C03:construction-refused:" \o e.out
     ELSE IF e.P # b.pl THEN "C03:value:" \o FirstDiffSeg(e.P, b.pl, b.segs)
     ELSE LET bad == {i \in 1..Len(e.back) : e.back[i] # e.kw[e.backidx[i]]} IN
